@@ -25,6 +25,7 @@ type goCompiler struct {
 	bound   map[string]bool
 	inOld   bool
 	err     error
+	predParams []string
 }
 
 func (g *goCompiler) fail(format string, a ...any) string {
@@ -61,6 +62,11 @@ func (g *goCompiler) expr(e ast.Expr) string {
 			}
 		}
 		if p, ok := g.params[t.Name]; ok {
+			for _, pp := range g.predParams {
+				if pp == t.Name {
+					return p // predicate parameter: already a compiled expression
+				}
+			}
 			for _, fp := range g.fn.Params {
 				if fp.Name() == t.Name && isInteger(fp.Type()) {
 					return "int(" + p + ")"
@@ -235,6 +241,41 @@ func (g *goCompiler) call(c *ast.CallExpr) string {
 		g.useDef(id.Name)
 		_ = d
 		return "verifDef_" + id.Name + "(" + strings.Join(args(), ", ") + ")"
+	}
+	if pr, ok := g.v.contracts.Preds[id.Name]; ok && len(pr.Params) == len(c.Args) {
+		// predicates / macros are expanded in place: parameters stand for the argument expressions
+		vals := make([]string, len(pr.Params))
+		for i := range pr.Params {
+			switch c.Args[i].(type) {
+			case *ast.Ident, *ast.SelectorExpr, *ast.IndexExpr, *ast.StarExpr:
+				sub := &goCompiler{v: g.v, fn: g.fn, params: g.params, results: g.results, defs: g.defs, bound: g.bound, predParams: g.predParams}
+				vals[i] = sub.access(c.Args[i])
+				if sub.err != nil {
+					vals[i] = g.expr(c.Args[i])
+				}
+			default:
+				vals[i] = g.expr(c.Args[i])
+			}
+		}
+		saved := map[string]string{}
+		had := map[string]bool{}
+		for i, pn := range pr.Params {
+			if old, ok := g.params[pn]; ok {
+				saved[pn], had[pn] = old, true
+			}
+			g.params[pn] = vals[i]
+		}
+		g.predParams = append(g.predParams, pr.Params...)
+		body := g.expr(pr.Body)
+		g.predParams = g.predParams[:len(g.predParams)-len(pr.Params)]
+		for _, pn := range pr.Params {
+			if had[pn] {
+				g.params[pn] = saved[pn]
+			} else {
+				delete(g.params, pn)
+			}
+		}
+		return "(" + body + ")"
 	}
 	return g.fail("cannot compile specification function %s", id.Name)
 }
